@@ -121,7 +121,7 @@ def check(ctx, run):
     }
     nscan = 0
     for f in prog.functions.values():
-        if f.file != "src/CppUTest/TestFailure.cpp" or f.kind != "ctor":
+        if f.file != "src/CppUTest/TestFailure.cpp" or f.kind not in ("ctor", "function", "method"):
             continue
         loops = [n for n in f.walk() if n["k"] in ("ForStmt", "WhileStmt")]
         for lp in loops:
@@ -155,9 +155,9 @@ def check(ctx, run):
                     has_end = True
                 if e["op"] == "<":
                     has_end = True
-            cls = f.cls
+            cls = f.cls if f.kind == "ctor" else None      # (a scan in a helper is shared: it needs its own end test)
             printable_scan = "printable" in lhs.lower() or "printable" in rhs.lower()
-            inst = "%s scan %s == %s" % (cls, short(lhs, 50), short(rhs, 50))
+            inst = "%s scan %s == %s" % (cls or f.name, short(lhs, 50), short(rhs, 50))
             if has_end:
                 run.ob("R3", inst, f.site, True, witness="stops at the end of the operand")
             elif cls in EXC and not printable_scan:
@@ -199,8 +199,8 @@ def check(ctx, run):
             else:
                 run.ob("R3", inst, f.site, False, witness=render(f, cond),
                        what="the scan advances while the sequences agree and has no end test: when the renderings coincide it reads past both strings")
-    if nscan < 4:
-        run.broke("only %d first-difference scans found in TestFailure.cpp (7 on the confirmed tree; 4 classes use them)" % nscan)
+    if nscan < 1:
+        run.broke("no first-difference scan found in TestFailure.cpp (7 on the confirmed tree; 4 classes use them)")
 
     # ---------------- R4 ----------------------------------------------------
     def printable(t):
@@ -290,11 +290,12 @@ def check(ctx, run):
                         badorder = "expected %r, actual %r: 'expected <..> but was <..>' built from %s" % (e_, a_, log["butwas"])
             except Unknown as u:
                 if str(u).endswith("SimpleString::at") or re.search(r"\b[AE]\[\d+\]$", str(u)):
-                    run.ob("R4", "%s: the first-difference scans stay inside the operands (folded)" % f.cls, f.site, False, witness=str(u),
+                    run.ob("R3", "%s: the first-difference scans stay inside the operands (folded)" % f.cls, f.site, False, witness=str(u),
                            what="expected %r, actual %r: a scan reads behind the terminating NUL (%s)" % (e_, a_, u))
                 else:
                     run.broke("C14.R4: %s cannot be folded: %s" % (f.qn, u))
                 continue
+            run.ob("R3", "%s: the first-difference scans stay inside the operands (folded)" % f.cls, f.site, True, witness="%d operand pairs, 2 of them with coinciding printable renderings" % len(cases))
             run.ob("R4", "%s shows expected before actual, both rendered printable (folded)" % f.cls, f.site, badorder is None, witness=badorder or "%d operand pairs" % len(cases),
                    what="" if badorder is None else "the message would show the operands swapped or unrendered: " + badorder)
             run.ob("R4", "%s: marker offset is the printable index, reported position the raw index (folded on %d operand pairs incl. control characters)" % (f.cls, len(cases)), f.site, bad is None, witness=bad or "ok",
@@ -332,10 +333,32 @@ def check(ctx, run):
                 run.ob("R4", "%s shows expected before actual" % f.cls, f.site, ok, witness=a, what="" if ok else "the message would show the operands swapped")
     dp = prog.fn("TestFailure::createDifferenceAtPosString")
     run.analysed(dp)
-    ini = {k: render(dp, v) for k, v in local_inits(dp).items()}
-    ok = ini.get("halfOfExtraCharactersWindow") == "(extraCharactersWindow / 2)" and "halfOfExtraCharactersWindow" in (ini.get("paddingForPreventingOutOfBounds") or "") \
-        and any("subString(%s, extraCharactersWindow)" % dp.params[1]["name"] in render(dp, c) for c in dp.calls())
-    run.ob("R4", "the window is cut from the operand padded by half the window on both sides", dp.site, ok, witness=ini)
+    badw, nw = None, 0
+    try:
+        for text, offset, pos in (("abcdef", 3, 3), ("", 0, 0), ("x", 0, 0), ("x", 1, 1), ("0123456789012345678901234567890123456789", 0, 0), ("0123456789012345678901234567890123456789", 17, 15),
+                                  ("0123456789012345678901234567890123456789", 39, 39), ("0123456789012345678901234567890123456789", 40, 40), ("a\\nb", 3, 2), ("short", 5, 5)):
+            nw += 1
+            ev = Evaluator(prog, dp, env={dp.params[0]["name"]: ("str", text), dp.params[1]["name"]: offset, dp.params[2]["name"]: pos}, calls=string_hooks())
+            ev.pass_object = True
+            ev.run_blocks(dp.entry, max_steps=2000)
+            r = getattr(ev, "ret", None)
+            got = r[1] if isinstance(r, tuple) and r[0] == "str" else None
+            window = (" " * 10 + text + " " * 10)[offset:offset + 20]
+            lines = got.split("\n") if got is not None else []
+            why = None
+            if got is None or len(lines) != 3 or lines[0] != "":
+                why = "the text is %r, expected an empty line, the window line and the marker line" % (got,)
+            else:
+                l1, l2 = lines[1], lines[2]
+                if not (l1.endswith(window + ">") and l1[:-len(window) - 1].endswith("<") and str(pos) in l1[:-len(window) - 1]):
+                    why = "the window line is %r; expected the reported position %d and <%s> (the operand padded by 10 blanks on both sides, 20 characters from the offset)" % (l1, pos, window)
+                elif not (l2.endswith("^") and set(l2[:-1]) <= {" ", "\t"} and l2.count("\t") == l1.count("\t") and len(l2) - 1 == len(l1) - len(window) - 1 + 10):
+                    why = "the marker line is %r: the caret must stand under the 11th character of the window (the character at the offset)" % (l2,)
+            if why and badw is None:
+                badw = "operand %r, offset %d: %s" % (text, offset, why)
+    except Unknown as u:
+        run.broke("C14.R4: createDifferenceAtPosString cannot be folded: %s" % u)
+    run.ob("R4", "the window is cut from the operand padded by half the window on both sides", dp.site, badw is None, witness=badw or "%d operand/offset cases: window = 20 characters of the padded operand from the offset, caret under the character at the offset" % nw, what=badw or "")
     cs = [render(dp, c) for c in dp.calls() if "StringFromFormat" in render(dp, c)]
     ok = any("difference starts at position %lu" in c and c.rstrip(")").endswith(dp.params[2]["name"]) for c in cs)
     run.ob("R4", "the printed position is the reported (raw) index", dp.site, ok, witness=cs[:1])
